@@ -4,9 +4,21 @@
  "file": "stmt.c", "function": "labelstmt", "also_functions": ["label", "stmt"],
  "properties": {"C16": "contract", "C01": "contract", "C19": "safety"},
  "mode": "harness",
- "unwind": 4,
+ "unwind": 4, "unwindset": ["harness.0:7"],
+ "variants": {"g_ll":  ["-DV_NL0=0", "-DV_SK0=SK_GOTO",  "-DV_NL1=2", "-DV_SK1=SK_NULL"],
+              "ll_g":  ["-DV_NL0=2", "-DV_SK0=SK_NULL",  "-DV_NL1=0", "-DV_SK1=SK_GOTO"],
+              "lg_b":  ["-DV_NL0=1", "-DV_SK0=SK_GOTO",  "-DV_NL1=0", "-DV_SK1=SK_BLOCK"],
+              "g_l":   ["-DV_NL0=0", "-DV_SK0=SK_GOTO",  "-DV_NL1=1", "-DV_SK1=SK_NULL"],
+              "l_g":   ["-DV_NL0=1", "-DV_SK0=SK_NULL",  "-DV_NL1=0", "-DV_SK1=SK_GOTO"],
+              "g_g":   ["-DV_NL0=0", "-DV_SK0=SK_GOTO",  "-DV_NL1=0", "-DV_SK1=SK_GOTO"],
+              "e_le":  ["-DV_NL0=0", "-DV_SK0=SK_EXPR",  "-DV_NL1=1", "-DV_SK1=SK_EXPR"],
+              "lb_n":  ["-DV_NL0=1", "-DV_SK0=SK_BLOCK", "-DV_NL1=0", "-DV_SK1=SK_NULL"],
+              "b_lg":  ["-DV_NL0=0", "-DV_SK0=SK_BLOCK", "-DV_NL1=1", "-DV_SK1=SK_GOTO"],
+              "le_b":  ["-DV_NL0=1", "-DV_SK0=SK_EXPR",  "-DV_NL1=0", "-DV_SK1=SK_BLOCK"],
+              "n_llg": ["-DV_NL0=0", "-DV_SK0=SK_NULL",  "-DV_NL1=2", "-DV_SK1=SK_GOTO"]},
+ "canary_variant": "g_ll",
  "kind": "bounded",
- "bound": "two labelled statements in sequence (as the two arms of if/else), each: 0..2 labels drawn from {a, b}, then one of `;`, `goto X;`, `X;` (expression statement starting with an identifier), `{ X: ; }`; every label name defined at most once in the function (duplicates: STMT.labelstmt.dup)",
+ "bound": "two labelled statements in sequence (as the two arms of if/else), each: 0..2 labels drawn from {a, b}, then one of `;`, `goto X;`, `X;` (expression statement starting with an identifier), `{ X: ; }`; 11 of the 144 shape pairs (one CBMC run each, token KINDS constant so that symbolic execution prunes stmt()'s other arms; all label NAMES symbolic); every label name defined at most once in the function (duplicates: STMT.labelstmt.dup)",
  "timeout": 200, "replay": false,
  "assumes": ["next/peek/consume/expect are token-script stand-ins with pp.c's meaning; funcgoto() is a two-name label table (the real one is a MAP.* client in qbe.c); funclabel/funcjmp/funcexpr record events; mkscope/delscope are a counted pool (SCOPE.*); decl() finds no declaration; attr()/gnuattr() find no attribute",
              "native replay impossible: labelstmt is static and the stand-ins replace extern functions of other translation units"]
@@ -29,8 +41,9 @@ harness(void)
 	static struct scope outer;
 	struct scope *s = &outer;
 	struct func *f = 0;
-	IN(unsigned, in_nl0); IN(unsigned, in_l00); IN(unsigned, in_l01); IN(unsigned, in_sk0); IN(unsigned, in_sn0);
-	IN(unsigned, in_nl1); IN(unsigned, in_l10); IN(unsigned, in_l11); IN(unsigned, in_sk1); IN(unsigned, in_sn1);
+	IN(unsigned, in_l00); IN(unsigned, in_l01); IN(unsigned, in_sn0);
+	IN(unsigned, in_l10); IN(unsigned, in_l11); IN(unsigned, in_sn1);
+	unsigned in_nl0 = V_NL0, in_sk0 = V_SK0, in_nl1 = V_NL1, in_sk1 = V_SK1;      /* shape: compile-time case split */
 	unsigned i;
 
 	__CPROVER_assume(in_nl0 <= 2 && in_l00 <= 1 && in_l01 <= 1 && in_sk0 < SK_N && in_sn0 <= 1);
@@ -60,6 +73,6 @@ harness(void)
 	__CPROVER_assert(g_open == 0, "6.8.2: every block scope opened by the statement is closed again");
 	__CPROVER_assert(outer.parent == 0 && outer.breaklabel == 0 && outer.switchcases == 0, "enclosing scope untouched");
 #ifdef VERIF_CANARY
-	__CPROVER_assert(!(in_sk0 == SK_GOTO && in_sn0 == 1 && in_nl1 == 2 && in_l11 == 1 && in_sk1 == SK_BLOCK), "CANARY");
+	__CPROVER_assert(!(in_sn0 == 1 && in_l11 == 1 && in_l10 == 0), "CANARY");
 #endif
 }
